@@ -382,19 +382,27 @@ pub fn run(args: &Args) {
 				}
 			};
 			let amount = ((input - lo) / (hi - lo)).clamp(0.0, 1.0);
-			let tab = if amount.is_nan() { vec![] } else { easing_oracle(e, amount) };
+			// (a NaN amount, from a zero-width range, goes through libm too: powf(NaN, p))
+			let tab = easing_oracle(e, amount);
 			s.case(
 				"mapping",
 				format!("CMap {} {} {} {} {} {} {} {}", f64_bits_z(lo), f64_bits_z(hi), f64_bits_z(olo), f64_bits_z(ohi), ek, z(ep), f64_bits_z(input), tab64(&tab)),
 				&[obs64(out)],
 				Some(format!("m:{}:{}:{}", lo.to_bits(), hi.to_bits(), input.to_bits())),
 			);
-			if lo != hi && (hi - lo).is_finite() {
+			// monitored on every mapping; the listed classes: a zero-width input range (F41), an easing power <= 0 (F36)
+			let nonpos = match e {
+				Easing::InPowi(p) | Easing::OutPowi(p) | Easing::InOutPowi(p) => p <= 0,
+				Easing::InPowf(p) | Easing::OutPowf(p) | Easing::InOutPowf(p) => p <= 0.0,
+				_ => false,
+			};
+			let class = if lo == hi { Some("mapping_zero_width_input_range") } else if nonpos { Some("easing_power_nonpositive") } else { None };
+			if (hi - lo).is_finite() {
 				let (a, b) = if lo <= hi { (lo, hi) } else { (hi, lo) };
 				let clamped = input.clamp(a, b);
 				let out2 = m.map(clamped);
 				if obs64(out2) != obs64(out) {
-					s.fail(format!("{m:?}.map({input:?})"), format!("{out:?} differs from map of the clamped input {clamped:?} = {out2:?}"), None);
+					s.fail(format!("{m:?}.map({input:?})"), format!("{out:?} differs from map of the clamped input {clamped:?} = {out2:?}"), class);
 				}
 			}
 		}
